@@ -49,6 +49,14 @@ C07_CASES = [
      'fn foo(s: []i32)\n{\n\tvar x: i32 = 1;\n\tvar p: &i32 = &x;\n\t&p = s;\n}\n', 'reject',
      'assignment of an array view []i32 to a pointer variable: an ill-typed program is rejected with an error, not by a failed assertion'),
 ] + [
+    (what, 'struct S\n{\n\tarr: [4]i32,\n\tp: &i32,\n}\n\nfn foo(sl: []i32, s: S)\n{\n\tvar t: S = s;\n\t%s\n}\n' % stmt, exp, why)
+    for what, stmt, exp, why in [
+        ('array view assigned to an element of an array member', 't.arr[0] = sl;', 'reject:504', 'assignment of an array view to an element of a [4]i32 member'),
+        ('array view assigned through a pointer member', 't.p = sl;', 'reject:504', 'assignment of an array view to the i32 behind a pointer member'),
+        ('array view assigned to an array member', 't.arr = sl;', 'reject:504', 'assignment of an array view to a [4]i32 member'),
+        ('array view assigned through a pointer member with an address', '&t.p = sl;', 'reject', 'assignment of an array view to a pointer member: rejected with an error, not by a failed assertion'),
+    ]
+] + [
     (what, 'word64 Position\n{\n\tx: i32,\n\ty: i32,\n}\n\nstruct Foo\n{\n\thead: &Position,\n\tarr: [4]i32,\n\tpts: [2]Position,\n}\n\nfn main()\n{\n'
            '\tvar a = Position { x: 1, y: 2 };\n\tvar b = Position { x: 3, y: 4 };\n\tvar foo = Foo { head: &a, arr: [1, 2, 3, 4], pts: [a, b] };\n\t%s\n}\n' % stmt, exp, why)
     for what, stmt, exp, why in [
